@@ -472,7 +472,7 @@ def run(ctx):
         return ctx.finish(RULE, False, [])
     sweep = sweep_cases()
     infra0 = core.run_batches(ctx, "pyv.c19", sweep)
-    total = 20000 if ctx.thorough else 640
+    total = 8000 if ctx.thorough else 640
     infra = core.hypothesis_search(ctx, "pyv.c19", total)
     scratch = core.make_scratch("C19", "kf")
     rc = ctx.finish(RULE, False, [
